@@ -133,6 +133,24 @@ NEEDS3 = {
 }
 
 
+NEEDS4 = {
+    'C01/1': ('Map::contains_key fast path `if size_of_val(k) == 0 { return !self.is_empty() }`', 'probing a non-empty map of String / Vec keys with "" or &[]: contains_key says true for an absent key'),
+    'C01/2': ('insert_ii append branch: `let last = N - 1; assert!(i <= last)` + unchecked item_write', 'release build + N == 0: N - 1 wraps, the insert is accepted and written past the (empty) array'),
+    'C05/1': ('serde visit_map appends each decoded entry directly (slot write + len += 1) instead of calling insert()', 'deserialisation input with a repeated key: the decoded map yields the same key twice'),
+    'C05/2': ('Map::retain as a one-pass partition that drops the rejected tail in one batch and lowers len afterwards', 'a rejected element whose Drop panics (caught): len stays stale, destroyed entries are yielded and dropped again'),
+    'C08/1': ('Difference::fold / Intersection::fold return init early when the right operand is empty', 'A - {} consumed through fold / for_each / count: the closure is never called although next() yields all of A'),
+    'C08/2': ('Union restructured into head + tail fields; fold nests them so that the tail is folded first', 'both halves non-empty and an order-sensitive consumer (fold collecting a sequence, last, reduce)'),
+    'C10/1': ('IntoIter::nth override computes `old.checked_sub(n + 1)`: n + 1 is evaluated unguarded', 'nth(usize::MAX) / skip(usize::MAX): debug panics, release wraps and reads an out-of-range slot'),
+    'C10/2': ('Drain::fold override via mem::take(&mut self.iter).fold(..)', 'the closure panics midway: the unvisited pairs are neither yielded nor dropped'),
+    'C11/1': ('OccupiedEntry gains a key field holding the PROBE key; key() returns it instead of the stored key', 'equal-but-distinguishable keys: Entry::key() disagrees with get_key_value / remove_entry'),
+    'C11/2': ('or_insert_with / or_insert_with_key call a new reserve() (assert len < N) before the closure', 'full map + absent key + side-effecting closure: the closure no longer runs before the capacity panic'),
+    'C13/1': ('get_disjoint_unchecked_mut: the on-stack hit list stores (u8, u8): the slot index is cast to u8', 'a map with more than 256 entries, one requested key in slot >= 256: the answer is the value of another slot'),
+    'C13/2': ('get_disjoint_mut fast path for exactly two keys stores the answers in slot order', 'two present keys requested in the opposite order of their slots: the two answers are swapped'),
+    'C16/1': ('Map::from_iter in two phases: take(N) + insert_unchecked, then insert for the rest', 'a non-fused source whose first burst is shorter than N: it is polled again after its None'),
+    'C16/2': ('Extend<&T> for Set as a loop with debug_assert!(self.contains(item)) after each insert', 'debug build + an element that is not equal to itself (NaN): extend by reference panics half-way'),
+}
+
+
 def main():
     os.makedirs(DST, exist_ok=True)
     rows = []
@@ -141,6 +159,8 @@ def main():
         rounds.append((NEEDS2, '/tmp/seed/out2', sys.argv[2], 2))
     if len(sys.argv) > 3:
         rounds.append((NEEDS3, '/tmp/seed/out3', sys.argv[3], 4))
+    if len(sys.argv) > 4:
+        rounds.append((NEEDS4, '/tmp/seed/out4', sys.argv[4], 6))
     for needs, OUTD, RESD, off in rounds:
         rows += one_round(needs, OUTD, RESD, off)
     for r in rows:
